@@ -26,3 +26,9 @@ REPLAY = {
 
 def specs():
     return [c() for c in eval_ctx.SPECS]
+
+
+def bounded(tier, seed, pr):
+    from pyvc.boundedrun import run_bounded
+
+    return [run_bounded(pr, "b_accept.py", "accept_registry_and_prefix_match")]
